@@ -37,6 +37,7 @@ def module_spec(draw, mid):
             "heap": draw(st.booleans()),
             "extern": draw(st.integers(0, 4)) == 0,
             "ending": draw(st.sampled_from(["exit0", "exit0", "exit", "assert", "oob"])),
+            "partial": draw(st.sampled_from([False, False, True])),     # an unterminated line is pending when the program ends / faults
             "exit": draw(st.integers(1, 255))}
 
 
@@ -78,6 +79,9 @@ def module_source(m):
         L.append('    (println (+ "%s ext " (int_to_string (cast_int (sqrt 16.0)))))' % mark)
         L.append("    (println (is_alpha 65))")
     L.append('    (println "%s end")' % mark)
+    if m.get("partial"):
+        L.append('    (print "%s partial:")' % mark)
+        L.append("    (print acc)")
     if m["ending"] == "assert":
         L.append("    assert (== acc -1)")
     elif m["ending"] == "oob":
